@@ -109,6 +109,22 @@ func genInstant(t *rt.Tape) int64 {
 	}
 }
 
+// dstTransitions returns the instants (Unix ms) in the year around T at which
+// the zone's UTC offset changes.
+func dstTransitions(loc *time.Location, T int64) []int64 {
+	var out []int64
+	start := time.UnixMilli(T).AddDate(0, -6, 0)
+	_, prev := start.In(loc).Zone()
+	for d := 0; d < 366; d++ {
+		x := start.AddDate(0, 0, d)
+		if _, off := x.In(loc).Zone(); off != prev {
+			out = append(out, x.UnixMilli())
+			prev = off
+		}
+	}
+	return out
+}
+
 func genGap(t *rt.Tape) int64 {
 	switch t.SW(3, 3, 3, 2, 2, 2) {
 	case 0:
@@ -149,6 +165,21 @@ func gnssTime(prop string, anyStart bool) func(*hx.Ctx) *hx.Outcome {
 		t := c.T
 		T := genInstant(t)
 		loc, locName := genLocation(t)
+		if tr := dstTransitions(loc, T); len(tr) > 0 && t.SBool(1, 3) {
+			// the week after a clock change of the start time's zone, at any hour,
+			// with extra mass on the first hour after UTC midnight and 21:00 UTC
+			base := tr[t.S(len(tr))] + int64(t.S(8))*msDay
+			base -= base % msDay
+			switch t.SW(2, 2, 1) {
+			case 0:
+				T = base + int64(t.S(3600000))
+			case 1:
+				T = base + 21*3600000 + int64(t.S(3600000))
+			default:
+				T = base + int64(t.S(int(msDay)))
+			}
+			o.Probe("start-in-week-after-dst-change")
+		}
 		level := slog.LevelDebug
 		if t.SBool(1, 3) {
 			level = slog.LevelInfo
